@@ -36,10 +36,16 @@ func genFunc(w *World, name string) *FuncReport {
 	}
 	var cases []*int
 	if c != nil && c.Split != nil {
-		cases = append(cases, nil) // exhaustiveness run
+		if !c.Split.Open {
+			cases = append(cases, nil) // exhaustiveness run
+		}
 		for v := c.Split.Lo; v <= c.Split.Hi; v++ {
 			vv := v
 			cases = append(cases, &vv)
+		}
+		if c.Split.Open {
+			below, above := c.Split.Lo-1, c.Split.Hi+1
+			cases = append(cases, &below, &above)
 		}
 	} else {
 		cases = []*int{nil}
@@ -141,6 +147,16 @@ func main() {
 		opts := SolveOpts{WorkDir: filepath.Join(verif, "work"), TimeoutS: *timeout, UseCache: !*nocache}
 		solveAll(obls, w.prelude, opts, nil)
 		bad := 0
+		allDead, deadRet := deadFunctions(obls)
+		for _, o := range allDead {
+			fmt.Println("FAIL all returns unreachable:", o.Func)
+			bad++
+		}
+		if *verbose {
+			for _, d := range deadRet {
+				fmt.Println("note: unreachable return", d)
+			}
+		}
 		sort.SliceStable(obls, func(i, j int) bool { return obls[i].ID < obls[j].ID })
 		for _, o := range obls {
 			ok := o.Discharged()
